@@ -157,6 +157,61 @@ def run_case(case, ctx):
     # bound on bond dimensions is C20's business
 
 
+# ---- graph -> MPO conversion on graphs reached by rewrite histories (not only on compiler output) --------------------
+
+def _graph_history_space(tier):
+    from props import c16
+    from mc.history import explore_from, replay_history
+
+    class ConvertSystem(c16.GraphSystem):
+        """States and transitions of the C16 explorer; the judged invariant here is the second clause of C05:
+        converting ANY consistent operator graph to an MPO preserves the operator, bond charges and node map."""
+
+        def check(self, before, after, label, info, ctx):
+            pass
+
+        def check_state(self, g, ctx):
+            if sym.graph_consistency(g):
+                return      # inconsistent graphs are C16's business
+            if any(n.qnum != 0 for n in g.nodes.values()):
+                return      # node charges of this space are not tied to the operator map; only neutral graphs can be converted
+            L = len(sym.graph_layers(g)) - 1
+            ref = sym.graph_poly(g)
+            check_mpo_from_graph(ctx, g, [0, 0], sym.FAITHFUL, L, sym.poly_dense(ref, sym.FAITHFUL, L, 2), prefix='history:')
+
+    system = ConvertSystem(tier)
+    descs = [d for d in c16.initial_descs('quick') if all(q == 0 for ch in d['charges'] for q in ch)]
+    depth = 1 if tier == 'quick' else 2
+
+    def run_chunk(chunk, seed):
+        total = None
+        for d in chunk:
+            r = explore_from(system, d, c16.build_graph, depth, seed, 'graph_histories')
+            if total is None:
+                total = r
+            else:
+                total.n += r.n; total.calls += r.calls; total.states += r.states; total.disabled += r.disabled
+                total.nontrivial_keys.extend(r.nontrivial_keys); total.classes.update(r.classes)
+                total.fails.extend(r.fails[:5]); total.extra.update(r.extra); total.harness_errors.extend(r.harness_errors[:2])
+                total.digests.extend(r.digests[:1])
+        return total
+
+    sp = Space('graph_histories', [descs[i:i + 4] for i in range(0, len(descs), 4)], run_chunk=run_chunk,
+               sig=lambda case: 'ops=' + '>'.join(str(o[0]) for o in case['ops']),
+               bounds={'initial_graphs': len(descs), 'depth': depth, 'what': 'charge-neutral graphs of the C16 space and every graph reached from '
+                       'them by one (thorough: two) rewrites; each is converted with MPO.from_opgraph and compared with its path polynomial'})
+    sp.history_system = system
+    return sp
+
+
+def replay_case(space, case, seed):
+    if space.name == 'graph_histories':
+        from props import c16
+        from mc.history import replay_history
+        return replay_history(space.history_system, case['init'], c16.build_graph, case['ops'], seed, 'graph_histories')
+    return space.run_one(case, seed).fails
+
+
 def sig(case):
     nz = [c for c in case['chains'] if c[2] != 0]
     return f'L={case["L"]}:{case["mode"]}:nchains={len(case["chains"])}:nz={len(nz)}'
@@ -196,4 +251,5 @@ def spaces(tier, seed):
         sps.append(Space(name, make_chunks(L, letters, mode, coeffs, K), run_case=run_case, expand=expand, sig=sig,
                          bounds={'L': L, 'letters': letters, 'charge_mode': mode, 'coeffs': coeffs, 'max_chains': K,
                                  'menu_size': len(get_menu(L, letters, mode, coeffs))}))
+    sps.append(_graph_history_space(tier))
     return sps
